@@ -245,6 +245,15 @@ def check(ctx, rep):
     # both start at bytecode offset 1 (skip the leading NUL) for B and P
     seeks_save = [norm(n) for n in own_nodes(save) if isinstance(n, ast.Call) and norm(n.func) == 'self.bytecode.seek']
     rep.ob('saveload.offset', 'save seeks to 1 before writing', 'self.bytecode.seek(1)' in seeks_save, repr(seeks_save), ctx.where(save))
+    # the length announced to the device (the cassette header stores it and the reader fetches exactly that many
+    # bytes) is the number of bytes save() writes: the whole stream less the leading byte it skips
+    from ..algebra import lin as _lin
+    sv_ = ctx.fn('pcbasic/basic/implementation.py:Implementation.save_')
+    lens = [k.value for c in own_nodes(sv_) if isinstance(c, ast.Call) and norm(c.func) == 'self.files.open' for k in c.keywords if k.arg == 'length']
+    want_len = _lin(ast.parse('len(self.program.bytecode.getvalue()) - 1', mode='eval').body)
+    rep.ob('saveload.announced-length', 'SAVE announces len(bytecode) - 1 bytes: what save() writes after skipping the leading byte',
+           len(lens) == 1 and _lin(lens[0]) == want_len and 'self.bytecode.seek(1)' in seeks_save,
+           'announced %s' % [norm(x) for x in lens], ctx.where(sv_))
     for t in (b'B', b'P'):
         if t in lb:
             s = [norm(n) for st in lb[t].body for n in own_nodes(st) if isinstance(n, ast.Call) and norm(n.func) == 'self.bytecode.seek']
@@ -336,6 +345,8 @@ def variants(ctx):
         V('load-P-calls-protect', 'break', PROGRAM,
           in_fn('Program.load', lambda fn: mu.replace_expr(fn, mu.text_is('converter.unprotect'), 'converter.protect')),
           expect='saveload.cipher-direction'),
+        V('save-announces-one-byte-too-many', 'break', 'pcbasic/basic/implementation.py',
+          in_fn('Implementation.save_', lambda fn: mu.replace_expr(fn, mu.text_is('len(self.program.bytecode.getvalue()) - 1'), 'len(self.program.bytecode.getvalue())')), expect='saveload.announced'),
         V('save-skips-no-leading-nul', 'break', PROGRAM,
           in_fn('Program.save', lambda fn: mu.replace_expr(fn, mu.text_is('self.bytecode.seek(1)'), 'self.bytecode.seek(0)')),
           expect='saveload.offset'),
